@@ -268,6 +268,10 @@ class StmtMixin:
                 return VList(v.t, kind.elem)
         if isinstance(kind, KRef) and isinstance(v, VRef):
             return v
+        if isinstance(kind, KRef) and isinstance(v, VAny):
+            # an opaque value passed where an object of a model class is declared (unchecked cast, recorded)
+            self.assumed_casts = getattr(self, "assumed_casts", set()) | {f"{self.cur_func_name}: opaque value used as {kind!r}"}
+            return VRef(v.t, kind.cls.rstrip("!"))
         if isinstance(kind, KList) and isinstance(v, VAny):
             # an opaque value passed where a list is declared: viewed as a list of the declared element kind
             # (an unchecked cast, recorded for the evidence)
@@ -771,11 +775,26 @@ class StmtMixin:
         st = st.copy()
         st.pc.append(Le(st.alloc, a))
         st.alloc = a
+        # the uninterpreted dynamic-attribute store (computed-name getattr/setattr) may have been written by earlier
+        # iterations: a new store version at the head of an arbitrary iteration
+        st.ghost = dict(st.ghost)
+        st.ghost["$dynver"] = VInt(self.decls.fresh("dynver_loop", INT))
+        return st
+
+    def snap_entry(self, st, ls):
+        if not getattr(ls, "entry_snap", None):
+            return st
+        st = st.copy()
+        st.ghost = dict(st.ghost)
+        env = self.inv_env(st, ls)
+        for name, expr in ls.entry_snap.items():
+            st.ghost[name] = self.spec_eval(env, expr)
         return st
 
     def ex_While(self, st, s):
         ls = self.loop_spec(s)
         st = self.intro_ghost(st, ls.ghost)
+        st = self.snap_entry(st, ls)
         st = self.check_invs(st, ls, "inv_init")
         h = self.havoc_for_loop(st, ls, s.body + s.orelse)
         h = self.assume_invs(h, ls)
@@ -855,6 +874,7 @@ class StmtMixin:
 
         ls = self.loop_spec(s)
         st = self.intro_ghost(st, ls.ghost)
+        st = self.snap_entry(st, ls)
         # the iterated sequence, fixed at loop entry
         mk_target, seq_t, ek, extra_body_fact = self.iteration_plan(st, it)
         esort = elem_sort(ek)
